@@ -35,6 +35,8 @@ PPowi(t, n) == IF n >= 0 THEN PPowNat(t, n) ELSE PPowNat(PInv(t), -n)
 \* real power: integral exponents are ordinary powers, others opaque symbols at constants
 PPowf(t, q) ==
     IF QIsInt(q) THEN PPowi(t, q[1])
+    ELSE IF q[2] = 2 /\ PIsConst(t) /\ QHasSqrt(PConstVal(t)) /\ QSign(PConstVal(t)) > 0
+         THEN PConst(QPow(QSqrt(PConstVal(t)), q[1]))          \* exact half-integer powers of squares
     ELSE IF PIsConst(t) /\ PConstVal(t) = Q1 THEN P1
     ELSE IF PIsConst(t) THEN PVar("pow(" \o QStr(PConstVal(t)) \o "," \o QStr(q) \o ")")
     ELSE Assert(FALSE, <<"PPowf of a non-constant polynomial", t, q>>)
